@@ -208,6 +208,9 @@ mod stmt;
 mod tests;
 mod value;
 
+#[cfg(feature = "verif-hooks")]
+pub mod verif_hooks;
+
 use errors::LoadTestError;
 use expr::Expr;
 
